@@ -31,10 +31,19 @@ def generate(tier, seed):
                 al.append(A("g", gk, [a, b] + dd))
                 al.append(R("g", gk, [a, b] + dd))
         al.append("BR")
+        # filtered removals that take out SEVERAL rules of one definition at once (and RBAC helpers built on them)
+        for gk in ("g", "g2"):
+            al += [RF("g", gk, 0, []), RF("g", gk, 1, ["y"]), RF("g", gk, 0, ["x"])]
+        al += ["drs:x:%s" % (dd[0] if dd else "-")]    # (helpers that also remove p rules are left to C13: the hand predicate reads the p rules off the adapter spec)
         reqs = [[s] + dd + [o, "read"] for s in U for o in U]
         block = [Q_e(r) for r in reqs] + ["?ga:g"]
         prules = [["x"] + dd + ["y", "read"], ["z"] + dd + ["z", "read"]]
         lines = [["p", "p"] + r for r in prules]
+        # a second start state with several links under each definition (disjoint direction so that per-definition and union differ little)
+        lines_b = lines + [["g", "g", "x", "y"] + dd, ["g", "g", "x", "z"] + dd, ["g", "g2", "z", "y"] + dd, ["g", "g2", "x", "y"] + dd]
+        for o in al:
+            cases.append(case("eng", sp, adapter_M(lines_b), "-", [o] + block))
+            dist["exhaustive"] += 1
         L = 2 if tier == "quick" else 3
         al_ex = al if (tier != "quick" or not dom) else al[::3]
         for k in range(1, L + 1):
